@@ -28,7 +28,9 @@ TTimeout ==
                                 !.unspecified = @ + (IF Unspecified(s) THEN 1 ELSE 0)]
   /\ l' = l + 1 /\ UNCHANGED <<hpos, ctxDone, cancelled, released>>
 
-\* the observed run must be a behaviour of CSpec that reaches the goal of CancelReleases within the wait
+\* the observed run must be a behaviour of CSpec that reaches the goal of CancelReleases within the wait; the blocked call
+\* must return an error that is not io.EOF (io.EOF tells the handler the client finished its stream: it would go on and
+\* commit a partial upload)
 TCancel ==
   /\ l <= Len(Trace) /\ Trace[l].ev = "Cancel"
   /\ LET e == Trace[l]
@@ -43,7 +45,7 @@ TCancel ==
          bad == IF e.crash # "" THEN {"Crash"}
                 ELSE IF ~observable THEN {}
                 ELSE (IF ~e.ctxdone THEN {"CancelReachesContext"} ELSE {})
-                     \cup (IF e.point \in {"blockedRecv", "blockedSend"} /\ e.reached /\ ~(e.released /\ e.relerr) THEN {"CancelReleases"} ELSE {})
+                     \cup (IF e.point \in {"blockedRecv", "blockedSend"} /\ e.reached /\ ~(e.released /\ e.relerr /\ ~e.releof) THEN {"CancelReleases"} ELSE {})
                      \cup (IF e.donebefore THEN {"SpuriousDone"} ELSE {})
      IN /\ failed' = failed \cup {<<e.case, l, f>> : f \in bad}
         /\ stat' = [stat EXCEPT !.cancels = @ + 1, !.blocked = @ + (IF e.point \in {"blockedRecv", "blockedSend"} /\ e.reached THEN 1 ELSE 0)]
